@@ -99,11 +99,12 @@ func (d *Decimal) Compose(form byte, negative bool, coefficient []byte, exponent
 		d.Form = Finite
 		// Set rest of finite form below.
 	case 1:
-		d.Form = Infinite
+		// Set every field: the destination may have held a finite value.
+		d.Set(decimalInfinity)
 		d.Negative = negative
 		return nil
 	case 2:
-		d.Form = NaN
+		d.Set(decimalNaN)
 		d.Negative = negative
 		return nil
 	}
